@@ -6,7 +6,46 @@ from vlib import coqlit as L
 
 
 # ---------------------------------------------------------------- typed values (0 / 0.0 / -0.0 / False differ)
+class Obj(object):
+  """Marker used by the generators: the object of that name in the object table (given and compared by IDENTITY)."""
+  def __init__(self, name):
+    self.name = name
+
+
+class CallObj(object):
+  def __call__(self, *a):
+    return "called"
+
+
+def _genfunc():
+  yield "from-genfunc"
+
+
+_TABLE = {}
+OBJ_NAMES = ["abs", "float", "list", "lambda", "bound", "partial", "callobj", "genfunc", "stream", "usercls", "nan",
+             "alist", "adict", "plainobj", "emptylist"]
+
+
+def objtable():
+  """Objects that are DATA here although many are callable; one instance each for the whole process."""
+  if not _TABLE:
+    import functools, audiolazy
+    _TABLE.update({"abs": abs, "float": float, "list": list, "lambda": (lambda *a: "lambda-called"),
+                   "bound": [].append, "partial": functools.partial(int, "7"), "callobj": CallObj(),
+                   "genfunc": _genfunc, "stream": audiolazy.Stream([1, 2, 3]), "usercls": CallObj,
+                   "nan": float("nan"), "alist": [1, [2]], "adict": {"k": 1}, "plainobj": object(), "emptylist": []})
+  return _TABLE
+
+
 def enc(x):
+  if isinstance(x, Obj):
+    return ["obj", x.name]
+  if _TABLE or not isinstance(x, (type(None), bool, int, str)):
+    for name, o in objtable().items():
+      if x is o:
+        return ["obj", name]
+  if isinstance(x, float) and (x != x or x in (float("inf"), float("-inf"))):
+    return ["other", "float", repr(x)]
   if x is None:
     return ["None"]
   if isinstance(x, bool):
@@ -40,6 +79,8 @@ def dec(j):
     return Fraction(j[1], j[2])
   if t == "tuple":
     return tuple(dec(y) for y in j[1])
+  if t == "obj":
+    return objtable()[j[1]]
   raise ValueError(j)
 
 
@@ -61,7 +102,10 @@ def pv(j):
     return "(vq %s)" % L.qc(Fraction(j[1], j[2]))
   if t == "tuple":
     return '(vt "%s")' % repr(dec(j)).replace('"', '""')
-  return '(PV %s (IS %s))' % (L.string("other:" + j[1]), L.string(j[2]))
+  if t == "obj":
+    return '(PV "object-by-identity" (IS %s))' % L.string(j[1])
+  safe = "".join(ch if (32 <= ord(ch) < 127 and ch not in '"\\') else "?" for ch in j[2])[:60]
+  return '(PV %s (IS %s))' % (L.string("other:" + j[1]), L.string(safe))
 
 
 def pvl(js):
